@@ -70,8 +70,9 @@ HEADER = "From TL Require Import Lib.Base Model.Skel Model.Nesting Model.Nesting
 MSG_RE = re.compile(r"^Function '(.*)' has excessive nesting depth \((\d+)\)$", re.S)
 
 
-def gen_cases(seed: int, n_files: int, max_depth: int):
+def gen_cases(seed: int, n_files: int, max_depth: int, cli_cap: int = 10 ** 9):
     cases = []
+    n_cli = 0
     for i in range(n_files):
         r = rng_for(seed, PROP, i)
         mode = r.choice(["common", "common", "py", "ts", "rs", "js"])
@@ -98,6 +99,10 @@ def gen_cases(seed: int, n_files: int, max_depth: int):
             c = {"i": i, "mode": mode, "lang": lang, "items": placed, "text": text,
                  "limits": list(range(1, dmax + 3)), "dmax": dmax,
                  "via": "cli" if r.random() < 0.04 else "api", "cli_seed": r.randint(0, 10 ** 9)}
+            if c["via"] == "cli":   # subprocess runs cost seconds each: an enlarged budget goes to in-process cases
+                n_cli += 1
+                if n_cli > cli_cap:
+                    c["via"] = "api"
             cases.append(c)
             group.append(c)
         if mode == "common" and len(group) >= 3 and r.random() < 0.5:
@@ -318,7 +323,7 @@ def check_limits(chk, seed, n, wd, cases=None):
         idx.append(j)
     shards = ["\n".join(evals[s:s + 200]) for s in range(0, len(evals), 200)]
     try:
-        outs = coq.eval_shards(wd, HEADER, shards)
+        outs = eval_shards(wd / "limit", shards)
     except RuntimeError as e:
         chk.broken.append(f"Model:evaluation of the limit model failed ({str(e)[:300]})")
         return
@@ -338,6 +343,56 @@ def check_limits(chk, seed, n, wd, cases=None):
             chk.correspondence_broken({"level": "limit chain", "detail": "Model/NestingDisc.v effective_limit disagrees with the implementation", "case": cases[j], "impl_limit": gots[j]})
 
 
+MODEL_FILES = ["Lib/Base.v", "Lib/GenTypes.v", "Gen/NestingGen.v", "Model/Skel.v", "Model/Nesting.v", "Model/NestingDisc.v",
+               "Model/NestingRun.v", "Actual/NestingActual.v"]
+_FALLBACK_TH = None
+
+
+def fallback_theories(workdir: Path):
+    """When the generated layer / the model no longer builds (a source idiom changed shape; the obligations are already
+    recorded as broken) the SEARCH for a concrete failing input still needs an executable model: a scratch copy of the
+    model compiled against the last recorded generated layer coq/Gen.expected/NestingGen.v.txt.  Never used when the
+    real layer builds."""
+    import shutil
+    import subprocess
+    snap = coq.COQ / "Gen.expected" / "NestingGen.v.txt"
+    if not snap.exists():
+        return None
+    th = workdir / "theories"
+    for rel in MODEL_FILES:
+        dst = th / rel
+        dst.parent.mkdir(parents=True, exist_ok=True)
+        shutil.copy(snap if rel == "Gen/NestingGen.v" else coq.TH / rel, dst)
+    for rel in MODEL_FILES:
+        p = subprocess.run(["timeout", "300", "coqc", "-Q", str(th), "TL", "-w", "-notation-overridden", str(th / rel)],
+                           capture_output=True, text=True, cwd=str(th))
+        if p.returncode != 0:
+            return None
+    return th
+
+
+def eval_shards(workdir: Path, shards):
+    if _FALLBACK_TH is None:
+        return coq.eval_shards(workdir, HEADER, shards)
+    import subprocess
+    from concurrent.futures import ThreadPoolExecutor
+    workdir.mkdir(parents=True, exist_ok=True)
+    paths = []
+    for i, body in enumerate(shards):
+        p = workdir / f"cases_{i}.v"
+        p.write_text(HEADER + "\n" + body + "\n")
+        paths.append(p)
+
+    def one(p):
+        r = subprocess.run(["timeout", "600", "coqc", "-Q", str(_FALLBACK_TH), "TL", "-w", "-notation-overridden,-abstract-large-number", str(p)],
+                           capture_output=True, text=True, cwd=str(p.parent))
+        if r.returncode != 0:
+            raise RuntimeError(f"coqc failed on {p.name}: {r.stderr[-800:]}")
+        return coq.parse_nat_lists(r.stdout)
+    with ThreadPoolExecutor(max_workers=6) as ex:
+        return list(ex.map(one, paths))
+
+
 def coq_case(case, impl) -> str:
     runs = []
     for lim, r in zip(case["limits"], impl["runs"]):
@@ -353,7 +408,7 @@ def judge(cases, impls, workdir: Path, per_shard=40):
         body = "\n".join(f"Eval vm_compute in ({coq_case(cases[j], impls[j])})." for j in chunk)
         shards.append(body)
         index.append(chunk)
-    outs = coq.eval_shards(workdir, HEADER, shards)
+    outs = eval_shards(workdir / "cases", shards)
     verdicts = [None] * len(cases)
     for chunk, out in zip(index, outs):
         if len(out) != len(chunk):
@@ -393,10 +448,17 @@ def run(tier: str, seed: int, replay: str | None = None) -> int:
             return chk.finish()
         cases = [viol["case"]]
     else:
-        cases = corpus_cases() + gen_cases(seed, n_files, max_depth)
+        cases = corpus_cases() + gen_cases(seed, n_files, max_depth, cli_cap=(16 if tier == "quick" else 60))
     impls = pool_map(run_impl, cases)
     cases, impls = expand_projects(cases, impls)
     with scratch_dir("tv-c01-coq-") as wd:
+        global _FALLBACK_TH
+        _FALLBACK_TH = None
+        if "theories/Model/NestingRun.v" not in chk.build_result.compiled or "theories/Actual/NestingActual.v" not in chk.build_result.compiled:
+            _FALLBACK_TH = fallback_theories(wd / "fallback")
+            chk.notes.append("the generated layer / model no longer builds; the search for a failing input evaluated the model against the last "
+                             "recorded generated layer coq/Gen.expected/NestingGen.v.txt" if _FALLBACK_TH else
+                             "the generated layer / model no longer builds and no recorded layer is available: cases could not be judged")
         if not replay:
             check_limits(chk, seed, (400 if tier == "quick" else 4000) * scale, wd)
         try:
